@@ -172,7 +172,7 @@ func mpdListTerm(fsys fs.FS, ls []layout) string {
 	for _, l := range ls {
 		for _, m := range l.MPDs {
 			obs := "MBad"
-			if m.Kind == "ok" {
+			if m.Kind == "ok" || m.Kind == "no_type" {
 				var sets []string
 				for _, as := range m.Sets {
 					var reps []string
@@ -182,7 +182,11 @@ func mpdListTerm(fsys fs.FS, ls []layout) string {
 					sets = append(sets, fmt.Sprintf("{| as_has_template := %s; as_ctype := %s; as_reps := [%s] |}",
 						lib.Cbool(!as.NoTemplate), lib.CoqString(as.ContentType), strings.Join(reps, ";\n    ")))
 				}
-				obs = "(MOk [" + strings.Join(sets, ";\n   ") + "])"
+				ctor := "MOk"
+				if m.Kind == "no_type" {
+					ctor = "MNoType"
+				}
+				obs = "(" + ctor + " [" + strings.Join(sets, ";\n   ") + "])"
 			}
 			ents = append(ents, ent{l.Asset + "/" + m.Name, fmt.Sprintf("(%s, %s, %s)", lib.CoqString(l.Asset), lib.CoqString(m.Name), obs)})
 		}
